@@ -154,6 +154,8 @@ impl Module {
         section: wasmparser::TableSectionReader,
         ids: &mut IndicesToIds,
     ) -> Result<()> {
+        #[cfg(walrus_verif)]
+        crate::verif::emit("interpret", "table", -1, -1);
         log::debug!("parse table section");
         for t in section {
             let t = t?;
